@@ -209,14 +209,12 @@ def alt_range(sc):
 
 
 def _alt_kind(rng, alt):
-    """20 % of the altitudes are whole metres handed over as int / numpy int / 0-d int array (value unchanged);
-    a few as float32 (value rounded to float32 first, so that model and reference see the same number)"""
+    """20 % of the altitudes are whole metres handed over as int / numpy int / 0-d int array (value unchanged).
+    (float32 altitudes are NOT generated: numpy then evaluates the ISA formulas in single precision, 1e-7 relative —
+    reduced precision asked for by the caller, not a defect, and not comparable at 1e-9)"""
     r = rng.random()
     if r < 0.2:
         return {'alt': float(round(alt)), 'alt_kind': rng.choice(['int', 'np-int', 'int-array'])}
-    if r < 0.25:
-        import struct
-        return {'alt': struct.unpack('f', struct.pack('f', alt))[0], 'alt_kind': 'np-float32'}
     return {}
 
 
@@ -234,7 +232,7 @@ def gen_query(rng, sc, kind=None):
     r = rng.random()
     h = rng.choice([0.0, 90.0, 180.0, 270.0, 45.0, 360.0, -90.0, 450.0]) if r < 0.3 else \
         (rng.uniform(-360.0, 720.0) if r < 0.5 else rng.uniform(0.0, 360.0))
-    tas = rng.choice([0.0, 10.0, 30.0]) if rng.random() < 0.08 else rng.uniform(50.0, 300.0)
+    tas = rng.choice([0.0, 2.0, 4.0, 7.5, 10.0, 30.0]) if rng.random() < 0.1 else rng.uniform(50.0, 300.0)
     if kind == 'node':
         lat, lon = rng.choice(lats), rng.choice(lons)
         if rng.random() < 0.5:
@@ -261,6 +259,13 @@ def gen_query(rng, sc, kind=None):
             h = bearing if kind == 'tail' else bearing + 180.0
             if rng.random() < 0.3:
                 h += rng.choice([-360.0, 360.0])
+            if kind == 'head' and rng.random() < 0.4:
+                # airspeed within a few m/s of the wind speed: the vector sum almost vanishes — against the heading as
+                # specified, or against the heading as the code reads it (F14), so that either way the true magnitude is small
+                tas = max(0.0, math.hypot(cu, cv) + rng.uniform(-6.0, 6.0))
+                if rng.random() < 0.5:
+                    h = math.degrees(math.atan2(-cv, -cu))
+                    kind = 'inside'           # no longer a headwind in the specified sense: judged by the vector formula only
     use_point = rng.random() < 0.5
     return {'kind': kind, 'hour': hour, 'lat': lat, 'lon': lon, 'alt': alt, 'tas': tas, 'h': h,
             'use_point': use_point, 'decoy': rng.uniform(0.0, 360.0), 'minute': rng.choice([0, 0, 7, 30, 59]),
@@ -686,7 +691,7 @@ def run(chk: Check):
     rng = chk.rng
     cases = load_corpus(chk)
     pairs = []
-    nscenes = chk.n(18, 70)
+    nscenes = chk.n(16, 70)
     per = chk.n(24, 32)
     sid = 1000
     for k in range(nscenes):
